@@ -92,7 +92,67 @@ var _ xml.Marshaler = (*RawXMLValue)(nil)
 var _ xml.Unmarshaler = (*RawXMLValue)(nil)
 
 func (val *RawXMLValue) Decode(v interface{}) error {
-	return xml.NewTokenDecoder(val.TokenReader()).Decode(&v)
+	tr := val.TokenReader()
+	if spaces := val.bareNamespaces(nil); len(spaces) > 0 {
+		tr = &resolvedTokenReader{tr: tr, spaces: spaces}
+	}
+	return xml.NewTokenDecoder(tr).Decode(&v)
+}
+
+// bareNamespaces collects the namespace names without a colon used by the
+// element and attribute names of the value: the only ones that can be spelled
+// like a prefix.
+func (val *RawXMLValue) bareNamespaces(spaces map[string]bool) map[string]bool {
+	if start, ok := val.tok.(xml.StartElement); ok {
+		names := []xml.Name{start.Name}
+		for _, attr := range start.Attr {
+			names = append(names, attr.Name)
+		}
+		for _, name := range names {
+			if name.Space != "" && name.Space != "xmlns" && !strings.Contains(name.Space, ":") {
+				if spaces == nil {
+					spaces = make(map[string]bool)
+				}
+				spaces[name.Space] = true
+			}
+		}
+	}
+	for i := range val.children {
+		spaces = val.children[i].bareNamespaces(spaces)
+	}
+	return spaces
+}
+
+// resolvedTokenReader feeds the tokens of a raw value to an xml.Decoder.
+//
+// The names in these tokens were resolved when the value was captured, but a
+// decoder resolves whatever it is given against the namespace declarations it
+// has seen: with xmlns:b="c" in scope, a name in the namespace "b" would be
+// taken for b:name and moved to "c" (in place, the attributes of the value
+// included). Declarations of a prefix spelled like a namespace in use are not
+// needed to read the value and are left out.
+type resolvedTokenReader struct {
+	tr     xml.TokenReader
+	spaces map[string]bool
+}
+
+func (r *resolvedTokenReader) Token() (xml.Token, error) {
+	tok, err := r.tr.Token()
+	if start, ok := tok.(xml.StartElement); ok {
+		for i, attr := range start.Attr {
+			if attr.Name.Space == "xmlns" && r.spaces[attr.Name.Local] {
+				kept := append([]xml.Attr(nil), start.Attr[:i]...)
+				for _, attr := range start.Attr[i+1:] {
+					if attr.Name.Space != "xmlns" || !r.spaces[attr.Name.Local] {
+						kept = append(kept, attr)
+					}
+				}
+				start.Attr = kept
+				return start, err
+			}
+		}
+	}
+	return tok, err
 }
 
 func (val *RawXMLValue) XMLName() (name xml.Name, ok bool) {
